@@ -285,6 +285,36 @@ def run(tier):
             v.violation("tablets-routing-v1 payload of %d bytes (%s): decoded with ok=%s panic=%s peak memory %s bytes: %s" % (
                 x["len"], x["kind"], x["ok"], x["panic"], x["peak"], pls[b]["payload"]), [dict(x, payload=pls[b]["payload"])])
     v.add(frame_streams=len(streams), tablet_payloads=len(pls))
+    # ---- typed values through the derived mappings, on metadata that names a field twice -------------------------------
+    gd = tlc("MC_DupFields", "MC_DupFields.cfg", workers=4, timeout=600)
+    if not gd.ok() or not gd.finished:
+        raise ToolError("MC_DupFields failed: %s" % gd.out[-300:])
+    dups = gd.json_prints("DUP")
+    if len(dups) < 1000:
+        raise ToolError("too few duplicate-field cases: %d" % len(dups))
+    if tier != "thorough":
+        dups = dups[::2]
+    din, dout = os.path.join(wd, "dup.in.ndjson"), os.path.join(wd, "dup.out.ndjson")
+    write_ndjson(din, dups)
+    run_harness("vh-cql", ["c16", din, dout], timeout=900)
+    drows = read_ndjson(dout)
+    if len(drows) != len(dups):
+        raise ToolError("c16 on duplicate-field cases: %d of %d" % (len(drows), len(dups)))
+    dj = []
+    for x in drows:
+        ser, de = x.get("ser") or {}, x.get("de") or {}
+        dj.append({"ser_panic": 1 if "PANIC" in str(ser.get("err", "")) else 0, "de_panic": 1 if "PANIC" in str(de.get("err", "")) else 0})
+    djp = os.path.join(wd, "dup.j.ndjson")
+    write_ndjson(djp, dj)
+    acc, rd, rej = validate_trace("Trace_DupFields", "Trace_DupFields.cfg", djp, timeout=600)
+    if not acc:
+        raise ToolError("Trace_DupFields did not consume its input (line %s)" % rej)
+    import re as _re2
+    for b in sorted({int(m.group(1)) - 1 for m in _re2.finditer(r'<<"BAD", (\d+)>>', rd.out)})[:3]:
+        x = drows[b]
+        v.violation("derived mapping %s (%s) against a definition naming a field twice %s: serialize -> %s; type_check / deserialize -> %s (a value or an error is required, not a panic)" % (
+            dups[b]["s"], dups[b]["mode"], ["%s:%s" % (f["n"], f["t"].get("n", f["t"].get("k"))) for f in dups[b]["db"]], str((x.get("ser") or {}).get("err", "ok"))[:160], str((x.get("de") or {}).get("err", "ok"))[:200]), [x])
+    v.add(duplicate_field_cases=len(dups), duplicate_field_type_check_accepted=sum(1 for x in drows if (x.get("de") or {}).get("tc_ok") == 1))
     kinds = {}
     for c in cases:
         kinds[c["kind"]] = kinds.get(c["kind"], 0) + 1
